@@ -96,11 +96,23 @@ def exec_shard():
     sys.stdout.flush()
 
 
+TZS = {1: 'Asia/Tokyo', 3: 'America/New_York'}      # shard number mod 4 -> the process's local time zone (others: the machine's own)
+
+
+def shard_env(spec):
+    """the environment a shard runs in: its string-hash seed and, for half of the shards, a local time zone that is not UTC
+    (conversions that silently go through local time only show when local time differs from UTC)"""
+    e = dict(os.environ, PYTHONHASHSEED=str(spec.get('hashseed', 0)))
+    if spec.get('tz'):
+        e['TZ'] = spec['tz']
+    return e
+
+
 def launch(spec, timeout):
     cmd = [sys.executable, '-B', '-m', 'vlib.runner', '--exec-shard']
     try:
         r = subprocess.run(cmd, input=json.dumps(spec), capture_output=True, text=True, timeout=timeout, cwd=env.VERIF,
-                           env=dict(os.environ, PYTHONHASHSEED=str(spec.get('hashseed', 0))))
+                           env=shard_env(spec))
     except subprocess.TimeoutExpired:
         return {'spec': spec, 'error': 'shard subprocess timeout %ss' % timeout, 'timeout': True}
     for line in reversed(r.stdout.splitlines()):
@@ -145,6 +157,8 @@ def main(argv=None):
         # the upper half of the shards runs under a different string-hash seed each (set / dict-of-set iteration orders inside the library differ);
         # recorded with every violation so that a replay runs under the same one
         s.setdefault('hashseed', 0 if i < (len(specs) + 1) // 2 else i + 100 * a.seed)
+        if TZS.get(i % 4) and not os.environ.get('VERIF_NO_TZ'):
+            s.setdefault('tz', TZS[i % 4])
     timeout = 300 if a.tier == 'quick' else 3600
     with ThreadPoolExecutor(max_workers=ncpu) as ex:
         results = list(ex.map(lambda s: launch(s, timeout), specs))
@@ -164,6 +178,8 @@ def main(argv=None):
                 samples.append(s)
         for v_ in r['violations']:
             v_['hashseed'] = r['spec'].get('hashseed', 0)
+            if r['spec'].get('tz'):
+                v_['tz'] = r['spec']['tz']
         violations.extend(r['violations'])
         inconclusive.extend(r['inconclusive'])
         herrors.extend(r['harness_errors'])
@@ -253,9 +269,9 @@ def replay(a):
     v = json.load(open(a.replay))
     pid = a.prop or v.get('prop')
     hs = str(v.get('hashseed', 0))
-    if os.environ.get('PYTHONHASHSEED') != hs:
-        # same string-hash seed as the shard that found it
-        r = subprocess.run([sys.executable, '-B', '-m', 'vlib.runner'] + sys.argv[1:], env=dict(os.environ, PYTHONHASHSEED=hs), cwd=env.VERIF)
+    if os.environ.get('PYTHONHASHSEED') != hs or (v.get('tz') and os.environ.get('TZ') != v['tz']):
+        # same string-hash seed and local time zone as the shard that found it
+        r = subprocess.run([sys.executable, '-B', '-m', 'vlib.runner'] + sys.argv[1:], env=shard_env({'hashseed': hs, 'tz': v.get('tz')}), cwd=env.VERIF)
         return r.returncode
     env.import_repo()
     prop = load_prop(pid)
